@@ -819,6 +819,111 @@ def pat_digest(n, seed):
     return _dcache[k]
 
 
+def rpc_trace_case(trace, limit, patterns):
+    """Translates the H4c trace (category rpc) of one scenario into an `rpctrace` model case.
+    patterns(id, kind) -> (len, seed) of the body the scenario sent ('req') / expects back ('resp') for the RPC <id>.
+    Returns (model case or None, per-stream observations, note)."""
+    lines = [l.split(",") for l in trace.strip("[]").split("|") if l]
+    conn = {}
+    for f in lines:
+        if len(f) > 4 and f[1] == "active" and f[3] == "add":
+            kv = dict(x.split("=", 1) for x in f[4:] if "=" in x)
+            conn[kv["id"]] = (kv["own"], kv["peer"])
+    streams, order, events, obs = {}, [], [], {}
+    def kvs(f):
+        return dict(x.split("=", 1) for x in f[5:] if "=" in x)
+    for f in lines:
+        if len(f) < 5 or f[1] != "rpc":
+            continue
+        cid, sid, ev = f[2].split("=")[1], f[3].split("=")[1], f[4]
+        if cid not in conn:
+            return None, {}, "rpc event on an unknown connection"
+        own, peer = conn[cid]
+        key = (own, peer, sid) if ev.startswith("c-") else (peer, own, sid)
+        if ev == "c-open":
+            if key in streams:
+                return None, {}, "stream key reused (several connections between the same pair)"
+            streams[key] = dict(idx=len(order))
+            order.append(key)
+            obs[key] = dict(decoded=0, response=None, request=None, seen=None, returned=None)
+            continue
+        if key not in streams:
+            return None, {}, "server event without a caller"
+        st, o = streams[key], obs[key]
+        i = st["idx"]
+        kv = kvs(f)
+        if ev == "c-request":
+            st["req"] = kv
+            o["request"] = kv
+        elif ev == "c-written":
+            events.append("%d:W" % i)
+        elif ev == "c-finish":
+            events.append("%d:F" % i)
+        elif ev == "c-response":
+            events.append("%d:P" % i)
+            o["response"] = kv
+        elif ev == "c-end":
+            if kv.get("after") != "response":
+                events.append("%d:CE" % i)
+        elif ev == "s-decoded":
+            events.append("%d:D" % i)
+            o["decoded"] += 1
+            o["seen"] = kv
+        elif ev == "s-returned":
+            events.append("%d:R" % i)
+            st["resp"] = kv
+            o["returned"] = kv
+        elif ev == "s-finished":
+            events.append("%d:S" % i)
+        elif ev == "s-end":
+            events.append("%d:SE" % i)
+    defs = []
+    for key in order:
+        st = streams[key]
+        q = st.get("req")
+        if q is None:
+            return None, {}, "stream without a described request"
+        hd = dict(x.split(":") for x in q["hdr"].split("+")) if q["hdr"] != "-" else {}
+        rid = bytes.fromhex(hd.get("6964", "")).decode("latin1")
+        ln, seed = patterns(rid, "req")
+        if ln > 1000000:
+            return None, {}, "body above 1 MB"
+        if pat_digest(ln, seed) != q["body"]:
+            return None, {}, "request body of %s is not the scripted pattern" % rid
+        resp = "-"
+        if "resp" in st:
+            r = st["resp"]
+            cands = [patterns(rid, "resp"), patterns(rid, "req")]
+            m = [c for c in cands if pat_digest(*c) == r["body"]]
+            if not m:
+                return None, {}, "response body of %s is not a scripted pattern" % rid
+            resp = "%s:%s:%d:%d" % (r["st"], r["hdr"].replace(":", "="), m[0][0], m[0][1] & 255)
+        defs.append("%s:%s:%d:%d:%s" % (q["route"], q["hdr"].replace(":", "="), ln, seed & 255, resp))
+    return "rpctrace %s | %s | %s" % (limit if limit else "none", " ".join(defs), " ".join(events)), dict((streams[k]["idx"], obs[k]) for k in order), ""
+
+
+def rpc_trace_compare(chk, sc, case, obs, m):
+    """Model verdict on the replayed RPC events against what both ends recorded."""
+    if not m.startswith("accepted"):
+        chk.disagree(sc, "rpc events: " + case[:3000], "Rpc.v: " + m[:600], "simnet/rpctrace")
+        return
+    for tok in m.split()[1:]:
+        i, inv, ss, cs = tok.split(":", 3)
+        o = obs[int(i)]
+        inv = int(inv.split("=")[1])
+        if inv != o["decoded"]:
+            chk.disagree(sc, "stream %s: the handler was invoked %d time(s)" % (i, o["decoded"]), "Rpc.v: %d" % inv, "simnet/rpctrace-observables")
+        if o["seen"] is not None and o["seen"] != o["request"]:
+            chk.monitor_fail("the request the handler saw differs from the one sent on its stream: %s vs %s" % (str(o["seen"])[:200], str(o["request"])[:200]), dict(case=sc))
+        cs = cs[3:]
+        if o["response"] is not None:
+            want = "ok,st=%s,hdr=%s,body=%s" % (o["response"]["st"], o["response"]["hdr"], o["response"]["body"])
+            if cs != want:
+                chk.disagree(sc, "stream %s: caller got %s" % (i, want[:300]), "Rpc.v: " + cs[:300], "simnet/rpctrace-observables")
+        elif cs.startswith("ok"):
+            chk.disagree(sc, "stream %s: caller got no response" % i, "Rpc.v: " + cs[:300], "simnet/rpctrace-observables")
+
+
 def c02(chk):
     quick = chk.tier == "quick"
     scen, metas = [], []
@@ -867,10 +972,32 @@ def c02(chk):
             rpcs.append((rid, a, b, size, rs))
         for rid, *_ in rpcs:
             cmds.append("join %s 300000" % rid)
-        cmds += ["log 0", "log 1", "peers 0"]
+        cmds += ["log 0", "log 1", "peers 0", "trace"]
         scen.append("simnet " + " ; ".join(cmds))
         metas.append((rpcs, faults, limit))
     outs, parsed = run_scenarios(chk, scen, "fabric:rpc")
+    # trace acceptance: the per-RPC events both ends recorded are replayed on Rpc.v (RpcTrace.erun); runs under
+    # datagram loss are left out (a connection may be lost there, which the stream-level model does not contain)
+    tc, tmeta = [], []
+    for k, (res, (rpcs, faults, limit)) in enumerate(zip(parsed, metas)):
+        if res is None or faults in ("loss", "all"):
+            continue
+        byid = dict((rid, (a, b, size, rs)) for rid, a, b, size, rs in rpcs)
+        def patterns(rid, kind, byid=byid):
+            a, b, size, rs = byid.get(rid, (0, 0, 0, None))
+            if kind == "resp" and rs is not None:
+                return (rs, len(rid))
+            return (size, len(rid) + b)
+        case, obs, note = rpc_trace_case(res[-1], limit, patterns)
+        if case is None:
+            chk.count("rpc-trace-not-modelled: " + note)
+            continue
+        tc.append(case)
+        tmeta.append((k, obs))
+    for (k, obs), case, m in zip(tmeta, tc, run_model(tc, shards=NCPU)):
+        chk.evaluations += 1
+        chk.count("rpc-trace-events", len(case.split("|")[2].split()))
+        rpc_trace_compare(chk, scen[k], case, obs, m)
     for sc, o, res, (rpcs, faults, limit) in zip(scen, outs, parsed, metas):
         if res is None:
             continue
@@ -949,11 +1076,38 @@ def c12(chk):
                 live += 1
         for k in range(live):
             cmds.append("join live%d 600000" % k)
-        cmds += ["sleep %d" % (rtt_us // 1000 * 3 + 100), "stat 1", "rpc 0 1 id=final size=10", "rpc 1 0 id=back size=10", "peers 0", "stat 0"]
+        cmds += ["sleep %d" % (rtt_us // 1000 * 3 + 100), "stat 1", "rpc 0 1 id=final size=10", "rpc 1 0 id=back size=10", "peers 0", "stat 0", "trace"]
         scen.append("simnet " + " ; ".join(cmds))
-        metas.append((count, live, hsleep))
+        metas.append((count, live, hsleep, size))
     outs, parsed = run_scenarios(chk, scen, "fabric:abandon")
-    for sc, o, res, (count, live, hsleep) in zip(scen, outs, parsed, metas):
+    # trace acceptance: both ends' per-RPC events replayed on Rpc.v (abandonment = Abandon, then NoticeStop / NoticeReset)
+    tc, tmeta = [], []
+    for k, (res, (count, live, hsleep, size)) in enumerate(zip(parsed, metas)):
+        if res is None:
+            continue
+        def patterns(rid, kind, size=size):
+            n = size if rid.startswith("a") else 50 if rid.startswith("L") else 10
+            return (n, len(rid) + (0 if rid == "back" else 1))
+        if size * count > (3000000 if quick else 12000000):
+            chk.count("rpc-trace-not-modelled: more than %d MB of request bodies" % (3 if quick else 12))
+            continue
+        case, obs, note = rpc_trace_case(res[-1], None, patterns)
+        if case is None:
+            chk.count("rpc-trace-not-modelled: " + note)
+            continue
+        tc.append(case)
+        tmeta.append((k, obs))
+    for (k, obs), case, m in zip(tmeta, tc, run_model(tc, shards=NCPU)):
+        chk.evaluations += 1
+        chk.count("rpc-trace-events", len(case.split("|")[2].split()))
+        rpc_trace_compare(chk, scen[k], case, obs, m)
+        if m.startswith("accepted"):
+            # every stream whose caller gave up must have been closed at the accepting side (no stream credit is kept)
+            for tok in m.split()[1:]:
+                i, inv, ss, cs = tok.split(":", 3)
+                if cs[3:] == "abandoned" and ss[3:] in ("wait", "running", "writing"):
+                    chk.disagree(scen[k], "stream %s abandoned; trace ends" % i, "Rpc.v: still open at the accepting side (%s)" % ss, "simnet/rpctrace-observables")
+    for sc, o, res, (count, live, hsleep, _size) in zip(scen, outs, parsed, metas):
         if res is None:
             continue
         chk.nontriv(sc)
